@@ -532,6 +532,25 @@ def run_case(case, rows, want_model=True):
                                   "what": "the media endpoint obtains another value than the manifest request resolved",
                                   "manifest_side": L.enc_val(row["kbase"], mv) if cgi not in INJECT else repr(mv),
                                   "media_side": L.enc_val(row["kbase"], dv) if cgi not in INJECT else repr(dv)})
+            # what the URL *says*, read with the documented syntax of each option type by a reader that shares
+            # nothing with the server process (no registry, no module constants): the media endpoint must use
+            # exactly that value – whatever earlier requests did to the process
+            url_args = dict(urllib.parse.parse_qsl(sp.query, keep_blank_values=True))
+            for i, row in enumerate(rows):
+                if row["cgi"] not in url_args:
+                    continue
+                said = reference_reading(row["kbase"], url_args[row["cgi"]])
+                if said is None:
+                    continue
+                _, dv = get_field(dopts, row)
+                got = U.canon_for_compare(row["kbase"], dv)
+                if got != said:
+                    fails.append({**where, "option": row["cgi"],
+                                  "what": "the media endpoint uses another value than the URL text means "
+                                          "(documented syntax of the option)",
+                                  "url_text": url_args[row["cgi"]], "means": repr(said)[:200],
+                                  "media_side": L.enc_val(row["kbase"], dv)})
+            stats.setdefault("url_specs", {})[murl] = U.container_spec(rows, dopts)
             if want_model:
                 mode_idx = {i for i, r in enumerate(rows) if r["cgi"] == "mode"}
                 impl = set_absent(U.container_spec(rows, dopts), mode_idx)
@@ -548,6 +567,27 @@ def run_case(case, rows, want_model=True):
     return fails, lines, stats
 
 
+def module_constants():
+    """UPPER_CASE module- and class-level containers of the option layer, by value"""
+    import importlib
+    out = []
+    for name in ("dashlive.server.options.drm_options", "dashlive.server.options.manifest_options",
+                 "dashlive.server.options.utc_time_options", "dashlive.server.options.http_error",
+                 "dashlive.server.events.base", "dashlive.server.events.factory", "dashlive.drm.location",
+                 "dashlive.drm.system", "dashlive.server.requesthandler.base"):
+        try:
+            mod = importlib.import_module(name)
+        except Exception:
+            continue
+        holders = [mod] + [v for v in vars(mod).values() if isinstance(v, type) and v.__module__ == name]
+        for h in holders:
+            for k, v in vars(h).items():
+                if k.isupper() and isinstance(v, (set, frozenset, list, tuple, dict, int, str)):
+                    out.append((name, getattr(h, "__name__", ""), k, repr(sorted(v, key=repr)) if isinstance(v, (set, frozenset))
+                                else repr(v)))
+    return tuple(sorted(out))
+
+
 def state_snapshot(rows):
     """module- and class-level option state that every request shares"""
     from dashlive.server import manifests as mfts
@@ -559,7 +599,90 @@ def state_snapshot(rows):
                           for o in OptionsRepository.get_dash_options()),
         "manifest_map": repr(sorted((k, sorted(m.features), repr(m.restrictions)) for k, m in mfts.manifest_map.items())),
         "object_fields": tuple(sorted(OptionsContainer.OBJECT_FIELDS)),
+        "module_constants": module_constants(),
     }
+
+
+_ALL_LOCS = frozenset(("cenc", "moov", "pro"))
+_DRM_NAMES = ("clearkey", "marlin", "playready")
+
+
+def reference_reading(kbase: str, text: str):
+    """the value a URL text denotes by the documented option syntax (docs of the cgi options: `drm=<name>[-<loc>…],…`
+    where a DRM named without locations means all three locations and `all` means every system; `0`/`1` flags;
+    decimal integers; comma lists), as a canonical comparable; None = this reader has no opinion"""
+    try:
+        if kbase == "drmSelection":
+            t = text.lower()
+            if t == "" or t.startswith("none"):
+                return ("drm", frozenset())
+            if t.startswith("all"):
+                locs = frozenset(t.split("-")[1:]) or _ALL_LOCS
+                return ("drm", frozenset((n, locs) for n in _DRM_NAMES))
+            out = set()
+            for item in t.split(","):
+                parts = item.split("-")
+                out.add((parts[0], frozenset(parts[1:]) or _ALL_LOCS))
+            return ("drm", frozenset(out))
+        if kbase == "bool":
+            return text.lower() in ("1", "true", "on")
+        if kbase in ("intOrNone",):
+            return None if text in ("", "none") else int(text, 10)
+        if kbase in ("intOrDefault", "posIntOrDefault"):
+            return None if text in ("", "none") else int(text, 10)
+        if kbase == "listJoin":
+            if text.lower() in ("", "none"):
+                return []
+            return [i for i in text.split(",") if i.lower() not in ("", "none")]
+        if kbase == "strRaw":
+            return text
+        if kbase == "strOrNone":
+            return None if text.lower() in ("", "none") else text
+        if kbase == "quotedUrl":
+            return None if text.lower() in ("", "none") else urllib.parse.unquote_plus(text)
+    except ValueError:
+        return None
+    return None
+
+
+def run_history(history, probe, rows):
+    """a request history: `probe` (a manifest request) is asked, then the requests of `history` are served, then
+    (1) every media URL the first answer handed out is parsed again by the media endpoint – it must mean what it
+    meant when it was handed out – and (2) `probe` is asked again and must advertise the same URLs."""
+    import flask
+    from dashlive.server.requesthandler.media_requests import LiveMedia
+    a = app()
+    fails0, _, st0 = run_case(probe, rows, want_model=False)
+    fails = list(fails0)
+    for h in history:
+        try:
+            run_case(h, rows, want_model=False)
+        except Exception:
+            pass
+    set_defaults(probe.get("defaults", "A"))
+    with a.app.test_request_context("/"):
+        stream = a.models.Stream.get(directory=probe["stream"])
+        for murl, spec0 in (st0.get("url_specs") or {}).items():
+            sp = urllib.parse.urlsplit(murl)
+            with a.app.test_request_context(sp.path + ("?" + sp.query if sp.query else "")):
+                try:
+                    spec1 = U.container_spec(rows, LiveMedia().calculate_options(probe["mode"], flask.request.args, stream))
+                except Exception as e:
+                    spec1 = f"{type(e).__name__}: {e}"
+            if spec1 != spec0:
+                d0 = dict(x.split("@") for x in spec0.split(";") if "@" in x)
+                d1 = dict(x.split("@") for x in spec1.split(";") if "@" in x)
+                changed = [(rows[int(k)]["cgi"], d0.get(k), d1.get(k)) for k in d0 if d0.get(k) != d1.get(k)][:4]
+                fails.append({"url": murl, "what": "a media URL handed out by the manifest means something else to the "
+                              "media endpoint after other requests have been served",
+                              "changed (option, when handed out, now)": changed or spec1[:200]})
+                break
+    fails1, _, st1 = run_case(probe, rows, want_model=False)
+    if (st0["status"], sorted(st0.get("url_list", []))) != (st1["status"], sorted(st1.get("url_list", []))):
+        fails.append({"what": "the same manifest request advertises other media URLs after other requests",
+                      "first": sorted(st0.get("url_list", []))[:4], "now": sorted(st1.get("url_list", []))[:4]})
+    fails += [f for f in fails1 if f not in fails]
+    return fails
 
 
 def shrink(case, rows):
@@ -606,6 +729,22 @@ def run_e2e(ctx, ch: Channel, cases=None):
     all_lines = []
     first_answer = {}
     snap0 = state_snapshot(rows)
+    if fixed:
+        # fixed request histories (vod -> odvod -> vod again, live -> odvod -> live, ...): what a manifest handed
+        # out must keep its meaning, and the same request its answer, whatever is served in between
+        for probe in c07_grid.PROBES:
+            ch.evaluations += 1
+            ch.count("history")
+            try:
+                hf = run_history(c07_grid.DISTURB, probe, rows)
+            except Exception as e:
+                import traceback
+                traceback.print_exc()
+                ch.errors.append(f"history crashed: {type(e).__name__}: {e} on {case_url(probe)}")
+                continue
+            if hf:
+                ch.oracle_failures.append({"case": probe, "url": case_url(probe), "history": c07_grid.DISTURB,
+                                           "first_failure": hf[0], "failures": len(hf)})
     for idx, case in enumerate(cases):
         ch.evaluations += 1
         try:
